@@ -384,6 +384,108 @@ def run(ctx: vlib.Ctx):
     tyoracle.report_corr(ctx, "TyNtDict.uk_nd/ref_dec_nd vs BasicDecoder.decode under an as_dict dialect", ncases, nbad, nlog, want="dec")
     from harness.props import c01 as _c01
     _c01.tv_part(ctx, "c03_tv", "dec", ctx.budget(15, 120))
+    # round-7 parts last (same reason)
+    directed_part(ctx)
+    union_part(ctx)
+
+
+def directed_part(ctx: vlib.Ctx):
+    """round 7, directed and inside the Coq grammar: Literal types with int/bool look-alike members, Optional fields with falsy non-None
+    defaults given an explicit null, Optional items of a NamedTuple held by a nullable field -- correspondence with TyModel.uk + reference oracle"""
+    cases, bad, log = tycorr.run_directed(ctx, "c03_r7", ctx.budget(4, 24))
+    tyoracle.report_corr(ctx, "TyModel.uk/ref_dec vs BasicDecoder.decode / from_dict on the directed schemas (int/bool Literal members, explicit null "
+                              "for Optional fields with falsy defaults, Optional items of NamedTuples in nullable holders)", cases, bad, log, want="dec")
+    for c in cases:
+        if c["kind"] != "dec":
+            continue
+        t, fam, ns = c["t"], c["fam"], c["ns"]
+        if c.get("entry") == "mixin":
+            cls = ns[t.name]
+
+            class _M:
+                decode = staticmethod(lambda d, cls=cls: cls.from_dict(d))
+            probe(ctx, t, fam, ns, _M, copy.deepcopy(c["input"]), True, entry="mixin_from_dict")
+        else:
+            probe(ctx, t, fam, ns, c["dec_o"], copy.deepcopy(c["input"]), True)
+
+
+def sync_union_order(t, ty, fam, ns):
+    """typing caches List[Union[a, b]] under the order-insensitive equality of unions: List[Union[b, a]] written later is the SAME object,
+    with the member order of the first spelling.  The library (rightly) follows the order of the object it is given, so the type tree
+    takes the member order from the real typing object, position by position."""
+    import typing
+    if t.kind == "union":
+        real = list(typing.get_args(ty))
+        objs = [gen.resolve(m, ns) for m in t.args]
+        new = []
+        for r in real:
+            for i, o in enumerate(objs):
+                if o == r and not any(t.args[i] is x for x in new):
+                    new.append(t.args[i])
+                    break
+        if len(new) == len(t.args):
+            t.args = new
+    elif t.kind in ("list", "tuplevar"):
+        sync_union_order(t.args[0], typing.get_args(ty)[0], fam, ns)
+    elif t.kind == "dict":
+        sync_union_order(t.args[1], typing.get_args(ty)[1], fam, ns)
+    elif t.kind == "data":
+        hints = typing.get_type_hints(ns[t.name])
+        for f in fam.get(t.name).fields:
+            sync_union_order(f.ty, hints[f.name], fam, ns)
+
+
+def union_part(ctx: vlib.Ctx):
+    """round 7, directed, oracle only (unions are outside the Coq grammar): non-Optional unions with exactly ONE primitive member (and controls
+    with two), any member order, at the top / below List / Dict / Tuple / in a dataclass field, against look-alike inputs (bool at int
+    positions, int at float / bool positions, numeric strings) -- the primitive member passes a value through only if it is of that very class"""
+    from mashumaro.codecs.basic import BasicDecoder
+    rng = ctx.rng
+    T = gen.T
+    junk = [True, False, 0, 1, -3, 2.5, "12", "1.5", "", "abc", None, [], [1], ["1", True], [True], {}, {"n": True}, {"n": "8"}, {"k": 1}, "2020-01-02", [1, "x"]]
+    for si in range(ctx.budget(40, 300)):
+        sg = gen.SchemaGen(rng, gen.GenOpts(depth=1, unions=False, spellings=False))
+        sg.tag = f"u{si}_"
+        leafd = gen.ClassSpec("data", sg.fresh("D"), mixin=rng.random() < 0.5, fields=[gen.FieldSpec("n", T(rng.choice(["int", "int", "str", "bool"])))])
+        sg.fam.classes.append(leafd)
+        others = [T("leaf", name="date"), T("leaf", name="UUID"), T("list", [T("int")]), T("list", [T("str")]), T("dict", [T("str"), T("int")]),
+                  T("data", name=leafd.name), T("tuplefix", [T("int"), T("str")]), T("set", [T("int")]), T("leaf", name="Decimal")]
+        prims = [T(rng.choice(["int", "int", "int", "float", "bool", "str"]))]
+        if rng.random() < 0.2:
+            prims.append(T(rng.choice([k for k in ("int", "float", "bool", "str") if k != prims[0].kind])))
+        ms = prims + rng.sample(others, rng.randrange(1, 3))
+        rng.shuffle(ms)
+        u = T("union", ms)
+        c = rng.random()
+        if c < 0.3:
+            t, wrap = u, (lambda x: x)
+        elif c < 0.45:
+            t, wrap = T("list", [u]), (lambda x: [x, x])
+        elif c < 0.6:
+            t, wrap = T("dict", [T("str"), T("list", [u])]), (lambda x: {"k": [x]})
+        elif c < 0.7:
+            t, wrap = T("tuplevar", [u]), (lambda x: [x])
+        else:
+            h = gen.ClassSpec("data", sg.fresh("H"), mixin=rng.random() < 0.5, fields=[gen.FieldSpec("a", T("int")), gen.FieldSpec("u", u)])
+            if rng.random() < 0.4:
+                h.fields.append(gen.FieldSpec("us", T("list", [copy.deepcopy(u)]), "factory:list", "field(default_factory=list)"))
+            sg.fam.classes.append(h)
+            t, wrap = T("data", name=h.name), (lambda x: {"a": 1, "u": x, "us": [x]})
+        fam = sg.fam
+        try:
+            ns = fam.build()
+            ty = gen.resolve(t, ns)
+            dec = BasicDecoder(ty)
+        except Exception as e:
+            ctx.fail(f"codec for {gen.py_ann(t)} cannot be built: {type(e).__name__}: {e}",
+                     {"entry": "codec_build", "source": fam.source(), "type": gen.py_ann(t), "expected": "ok"}, {"kind": "decoder-build"})
+            continue
+        sync_union_order(t, ty, fam, ns)
+        for x in junk:
+            probe(ctx, t, fam, ns, dec, wrap(copy.deepcopy(x)), True)
+        for n_ in t.walk():
+            ctx.hist("oracle_type_constructors", "u-" + n_.kind)
+        fam.dispose()
 
 
 def replay(rep: dict) -> int:
